@@ -10,7 +10,7 @@ Lemma logic_guarded : C10_logic_statement Guarded.
 Proof.
   intros k g calls Hok. split; [|split; [|split; [|split]]].
   - intros sched t. apply guarded_results. exact Hok.
-  - intros sched H. destruct (guarded_progress k g calls sched Hok H) as (t & H1 & _ & H3). exists t. split; assumption.
+  - intros sched H. destruct (guarded_progress k g calls sched Hok H) as (t & H1 & H2 & H3). exists t. split; [|split]; assumption.
   - intros rounds. apply guarded_fair_complete. exact Hok.
   - intros sched t1 t2 n c1 c2. apply guarded_ret_canonical. exact Hok.
   - intros sched t n c. apply guarded_ret_linked. exact Hok.
